@@ -62,9 +62,24 @@ def run(ctx):
             return {k_: v_ for k_, v_ in out.items() if v_ != 0}
         return None
 
-    def _raw_ok(XB, op):
+    def _raw_ok(XB, op, at=None, depth=0):
         """(is start[..L-R], description)"""
-        cur = XB.origin(op)
+        # a value with several definitions reaching this place (the copies jump threading makes of one statement): every one of them must qualify
+        if op.get('k') in ('cp', 'mv') and not op['pl'].get('p') and at is not None and depth < 4:
+            ds_ = XB.reaching_defs(op['pl']['l'], at)
+            if len(ds_) > 1 and all(d_[0] == 's' for d_ in ds_):
+                res = []
+                for d_ in ds_:
+                    rv_ = d_[3]['rv']
+                    if rv_['k'] == 'agg' and rv_.get('var') == 'Some' and rv_.get('ops'):
+                        res.append(_raw_ok(XB, rv_['ops'][0], (d_[1], d_[2]), depth + 1))
+                    elif rv_['k'] == 'use':
+                        res.append(_raw_ok(XB, rv_['op'], (d_[1], d_[2]), depth + 1))
+                    else:
+                        res.append((False, 'definition of another kind'))
+                bad_ = [r_ for r_ in res if not r_[0]]
+                return (not bad_), (bad_[0][1] if bad_ else res[0][1])
+        cur = XB.origin(op, at=at)
         for _ in range(6):
             if cur[0] == 'agg' and cur[1].get('var') == 'Some' and cur[1].get('ops'):
                 cur = XB.origin(cur[1]['ops'][0])
@@ -104,7 +119,7 @@ def run(ctx):
             inst = var
             if not calls and var in stores:
                 bb, st = stores[var][0]
-                good, detail = _raw_ok(B, st['rv']['op']) if st['rv']['k'] == 'use' else (_raw_ok(B, st['rv']['ops'][0]) if st['rv']['k'] == 'agg' and st['rv'].get('var') == 'Some' and st['rv'].get('ops') else (False, 'not a Some(..)'))
+                good, detail = _raw_ok(B, st['rv']['op'], (bb, None)) if st['rv']['k'] == 'use' else (_raw_ok(B, st['rv']['ops'][0], (bb, None)) if st['rv']['k'] == 'agg' and st['rv'].get('var') == 'Some' and st['rv'].get('ops') else (False, 'not a Some(..)'))
                 if good:
                     ctx.ok('C10.1-capture', inst, 'the nested %s keeps its fields and gets local_ext_bytes = Some(start[..len(start) - len(rest)])' % var.lower(), ctx.where(B, bb))
                 else:
@@ -116,7 +131,7 @@ def run(ctx):
                         key='PROV:%sparse_local_ext:%s:no-capture' % (DEC, var))
                 continue
             bb, t = calls[0]
-            good, detail = _raw_ok(B, t['args'][-1])
+            good, detail = _raw_ok(B, t['args'][-1], (bb, None))
             # the other fields are carried over from the nested identifier
             carried = True
             for a in t['args'][:-1]:
